@@ -759,10 +759,14 @@ def run_align(case):
                         atab = r.bu.module.aux_data["alignment"].data
                         earlier = any(b in atab and b.offset < k
                                       for b in bi.blocks)
+                        shared = any(b in atab and b.offset == k
+                                     and b.size == 0 for b in bi.blocks)
                         ctx = ("mid-block" if e["i"] > 0 else
                                "first-block-of-interval" if first_of_iv
                                else "later-aligned-block-of-interval"
-                               if earlier else "block-start")
+                               if earlier else
+                               "aligned-block-sharing-its-offset-with-another"
+                               if shared else "block-start")
                         viol.append({
                             "key": f"align:patch-requirement-not-met:{ctx}",
                             "msg": f"edit {eid}: {bi.address + k:#x} % "
